@@ -102,12 +102,13 @@ func (pe *predEval) evalSSA(p *packages.Package, fd *ast.FuncDecl, depth int) *p
 	type cmpInfo struct {
 		v     *ssa.BinOp
 		names []string
+		neg   bool // v is `!=`: the names match where v is false
 	}
 	var cmps []cmpInfo
 	for _, b := range fn.Blocks {
 		for _, ins := range b.Instrs {
 			bo, ok := ins.(*ssa.BinOp)
-			if !ok || bo.Op != token.EQL {
+			if !ok || (bo.Op != token.EQL && bo.Op != token.NEQ) {
 				continue
 			}
 			var side ssa.Value
@@ -124,7 +125,7 @@ func (pe *predEval) evalSSA(p *packages.Package, fd *ast.FuncDecl, depth int) *p
 				res.problem = "the type name is compared with something that is not a constant name (list) at " + relPos(fn.Prog.Fset, bo.Pos())
 				return res
 			}
-			cmps = append(cmps, cmpInfo{bo, ns})
+			cmps = append(cmps, cmpInfo{bo, ns, bo.Op == token.NEQ})
 		}
 	}
 	// nothing but comparisons of the type name (and loop bounds, and other predicates applied to
@@ -182,7 +183,11 @@ func (pe *predEval) evalSSA(p *packages.Package, fd *ast.FuncDecl, depth int) *p
 			return nil, false
 		}
 		for i := range cmps {
-			if s.facts[fact{ff.canon(s, cmps[i].v), fTRUE, ""}] {
+			want := fTRUE
+			if cmps[i].neg {
+				want = fFALSE
+			}
+			if s.facts[fact{ff.canon(s, cmps[i].v), want, ""}] {
 				return &cmps[i], true
 			}
 		}
@@ -213,7 +218,7 @@ func (pe *predEval) evalSSA(p *packages.Package, fd *ast.FuncDecl, depth int) *p
 		switch x := v.(type) {
 		case *ssa.BinOp:
 			for i := range cmps {
-				if cmps[i].v == x {
+				if cmps[i].v == x && !cmps[i].neg {
 					for _, n := range cmps[i].names {
 						res.names[n] = true
 					}
